@@ -610,6 +610,75 @@ class FetchParsedDeprecated(FetchParsed):
             warnings.showwarning = old
 
 
+class ThroughVariable(FetchParsed):
+    """the same merges with the source value handed on through a variable: 'pick = <words>' then 'c = $pick' selects, stars and
+    refuses exactly what 'c = <words>' does (a sole unquoted reference is replaced by the referenced words as they are).
+    Oracle only."""
+    name = "through_variable"
+
+    def corpus(self):
+        return [[[["exact", "n"], ["fast", "n"]], [["EXACT", "n"]], False, "None"],
+                [[["a", "n"], ["b", "n"], ["c", "n"]], [["a+c", "n"]], True, "None"],
+                [[["*a", "n"], ["b", "n"]], [["None", "n"]], False, "True"],
+                [[["a", "n"], ["b", "n"]], [["zz", "n"]], False, "None"]]
+
+    def cases(self, rng, tier):
+        for i, c in enumerate(FetchParsed.cases(self, rng, tier)):
+            if i % 11 == 5 and not any(("$" in w[0] or "\\" in w[0]) for w in c[1]):
+                yield c
+
+    def impl(self, case):
+        direct = FetchParsed.impl(self, case)
+        if direct[0] == "skip":
+            return direct
+        mt, st = self.texts(case)
+        fp = self.fp
+        via_text = "pick = " + st[len("c = "):] + "\nc = $pick\n"
+        try:
+            master = fp.parse(mt)
+            source = fp.parse(via_text)
+            r = master.fetch(source=source)
+            if len(r.objects) == 0:
+                return ["skip", "no object"]
+            F = ["ok", words_obs(r.objects[0].words)]
+        except (RuntimeError, fp.Sorry) as e:
+            return ["cmp", direct[2], err_obs(e), direct[3], []]
+        try:
+            E = ["ok", pyv_obs(fp, r.extract().c)]
+        except (RuntimeError, fp.Sorry) as e:
+            E = err_obs(e)
+        return ["cmp", direct[2], F, direct[3], E]
+
+    def requests(self, case, o):
+        return []
+
+    def model(self, case, replies, o):
+        return o
+
+    @staticmethod
+    def noline(x):
+        # the line an error cites is the line of the word: line 1 in both spellings, but the text may quote "$pick"
+        return x
+
+    def prop(self, case, o):
+        if o[0] != "cmp":
+            return None
+        if o[1] != o[2]:
+            return "c = $pick with pick = %s merges to %r, the value written directly to %r" % (render(case[1]), o[2], o[1])
+        if o[1][0] == "ok" and o[3] != o[4]:
+            return "c = $pick with pick = %s extracts %r, the value written directly %r" % (render(case[1]), o[4], o[3])
+        return None
+
+    def in_domain(self, case):
+        return True
+
+    def key(self, case, o):
+        return None if o[0] == "skip" else repr(case)
+
+    def tag(self, case, o):
+        return o[0]
+
+
 class TwoStepMerge(Stream):
     """a '.multiple = True' choice merged in two steps - working = master.fetch(s1), then working.fetch(s2) - selects what
     the one-step merge master.fetch(sources=[s1, s2]) selects (the working parameters of a GUI are merged again and again).
@@ -879,7 +948,7 @@ class TypeStr(Stream):
 
 SPEC = {
     "clusters": ["Tok", "Choice"],
-    "streams": [CharTable, FetchParsed, FetchParsedDeprecated, TwoStepMerge, FetchDirect, AsWords, TypeStr],
+    "streams": [CharTable, FetchParsed, FetchParsedDeprecated, TwoStepMerge, ThroughVariable, FetchDirect, AsWords, TypeStr],
     "rule": "fetch_parsed: fixed alternative lists (2-5 names over a, B, ab, Ab, c_d, 'x y'; all default-star subsets for "
             "lists up to 3, a sample beyond) x every source spelling generated relative to the list (starred subsets, "
             "starred names alone, bare single names in 4 case variants, quoted names, None/Auto spellings, + forms glued and "
